@@ -336,3 +336,36 @@ pub fn longruns(ctx: &Ctx) -> Stats {
     }
     st
 }
+
+/// gaps of identical ambiguous bytes of every length 0..=140 (+ some larger) between two clean stretches
+pub fn gaps(ctx: &Ctx) -> Stats {
+    let mut st = Stats::new();
+    let lens: Vec<usize> = (0..=140).chain(250..=260).chain([511, 512, 513, 1023, 1024, 1025]).collect();
+    let mut i = 0u64;
+    for &(w, m) in &[(1usize, 1usize), (4, 2), (8, 5), (15, 7), (31, 7), (40, 31)] {
+        for &gap in &lens {
+            for &amb in &[b'N', 0xE4u8] {
+                i += 1;
+                let mut rng = Rng::keyed(ctx.seed, "c09.gaps", i);
+                let mut seq: Vec<u8> = (0..w + rng.usize(0, 6)).map(|_| *rng.pick(b"ACGT")).collect();
+                seq.extend(std::iter::repeat(amb).take(gap));
+                seq.extend((0..w + rng.usize(0, 9)).map(|_| *rng.pick(b"ACGT")));
+                st.case(true, mix(i));
+                let case = || case_json(&seq, w, m).set("gap_len", Json::u(gap));
+                if let Some((sig, msg, _)) = check_plain(&seq, w, m) {
+                    st.violate(&format!("{}:gap", sig), format!("gap of {}: {}", gap, msg), case());
+                }
+                if w <= 31 {
+                    if let Some((sig, msg, _)) = check_kmers(&seq, w, m) {
+                        st.violate(&format!("{}:gap", sig), format!("gap of {}: {}", gap, msg), case());
+                    }
+                }
+                if i % 301 == 3 {
+                    st.sample(Json::obj().set("w", Json::u(w)).set("m", Json::u(m)).set("gap_len", Json::u(gap)));
+                }
+            }
+        }
+    }
+    st.set_extra("gap_lengths", Json::s("0..=140, 250..=260, 511..513, 1023..1025"));
+    st
+}
